@@ -67,3 +67,21 @@ def tier1_problems(tier, rng):
     yield {"n": 1, "rows": [-1], "cols": [-1]}
     yield {"n": 3, "rows": [1, -1], "cols": [-1, -1, -1]}
     yield {"n": 3, "rows": [-1, -1, 0], "cols": [2]}
+
+
+def _between(line):
+    z = [i for i, v in enumerate(line) if v == 0]
+    return sum(line[z[0] + 1:z[1]])
+
+
+def big(tier, rng):
+    """n = 6..8 with two-digit sums: the cyclic Latin square on 0..n-1 with the symbol n-1 turned into a second block"""
+    th = tier == "thorough"
+    for n in ((6, 7, 8) if th else (6, rng.choice([7, 8]))):
+        s = rng.randrange(n)
+        g = [[((i + j + s) % n) % (n - 1) for j in range(n)] for i in range(n)]
+        cols = [[g[y][x] for y in range(n)] for x in range(n)]
+        rows_c = [_between(r) for r in g]
+        cols_c = [_between(c) for c in cols]
+        keep = lambda v: [x if (x >= 10 or rng.random() < 0.6) else -1 for x in v]  # noqa
+        yield {"n": n, "rows": keep(rows_c), "cols": keep(cols_c), "planted": [L.flat(g)]}
